@@ -813,13 +813,13 @@ def nt_cdim(case):
 
 
 SUBCHECKS = [
-    SubCheck("apply_reps", check_apply, _apply_case, lambda c: nt_map(c["map"]), quick=15000, thorough=240000),
+    SubCheck("apply_reps", check_apply, _apply_case, lambda c: nt_map(c["map"]), quick=15000, thorough=240000, fuzz=10000),
     SubCheck("kraus_to_choi", check_k2c, _apply_case, lambda c: nt_map(c["map"]), quick=10000, thorough=160000),
-    SubCheck("choi_to_kraus", check_c2k, _c2k_case, lambda c: nt_map(c["map"]), quick=15000, thorough=240000),
+    SubCheck("choi_to_kraus", check_c2k, _c2k_case, lambda c: nt_map(c["map"]), quick=15000, thorough=240000, fuzz=10000),
     SubCheck("choi_to_kraus_hermitian_rect", check_c2k_hrect, _c2k_hrect_case, lambda c: "hermitian J, rectangular spaces" + (",complex" if c["cplx"] else ""), quick=1500, thorough=24000, shards=4),
     SubCheck("choi_to_kraus_tol", check_c2k_tol, _c2k_tol_case, lambda c: f"{c['form']},tol={c['tol']},x{c['factor']:.3g}", quick=3000, thorough=40000),
     SubCheck("chains", check_chain, _chain_case, nt_chain, quick=12000, thorough=192000),
-    SubCheck("partial_channel", check_partial, _partial_case, nt_partial, quick=18000, thorough=288000),
+    SubCheck("partial_channel", check_partial, _partial_case, nt_partial, quick=18000, thorough=288000, fuzz=10000),
     SubCheck("partial_channel_cp_list_rect", check_partial_cp_rect, lambda: _partial_case(cp_list_rect=True), nt_partial, quick=1500, thorough=24000, shards=4),
     SubCheck("natural_representation", check_natural, _natural_case, lambda c: nt_map(c["map"]), quick=5000, thorough=80000),
     SubCheck("channel_dim", check_cdim, _cdim_case, nt_cdim, quick=10000, thorough=160000),
